@@ -165,6 +165,11 @@ def c20_cases(rng, tier):
             init, scripts, _ = syss[(j * 7) % len(syss)]
             pat = [rng.choice(PAUSES) for _ in range(rng.randint(1, 6))]
             oracles.append(f"o_lockrun {enc_sys(init, scripts)} {enc_list(pat)}")
+    # ---- closures that hold the lock for a long time (a waiter must simply wait: no time-out, no lost call)
+    long_holds = [120000] if tier == "quick" else [120000, 400000, 1300000]
+    for hold in long_holds:
+        nthr = 3 if hold < 1000000 else 2
+        oracles.append(f"o_lockrun {enc_sys([5], [[(0, 1, 1)]] * nthr)} {enc_list([hold])}")
     # ---- long runs of increments (several thousand contended calls per thread), checked in the harness
     iters = 3000 if tier == "quick" else 20000
     hammer = [(2, 1), (3, 1), (4, 1), (8, 1), (16, 1), (3, 2), (8, 3), (16, 3)]
